@@ -53,8 +53,10 @@ def extra_checks(ctx, exes):
     for name, op in (("mt_verif32_tsan", "mt32"), ("mt_noop_tsan", "mtn")):
         if name not in exes:
             continue
-        cases = [c for c in gen_cases(ctx.tier, ctx.rng) if c.startswith(op + " ")]
-        cases = cases[::3] if ctx.tier == "quick" else cases
+        cases = [c for c in gen_cases(ctx.tier, ctx.rng) if c.startswith(op + " ")][::3]
+        # ThreadSanitizer slows every access down 10-20x: fewer repetitions per experiment than the plain runs
+        treps = "10" if ctx.tier == "quick" else "25"
+        cases = [" ".join([c.split(" ")[0], treps] + c.split(" ")[2:]) for c in cases]
         cf = os.path.join(ctx.build, "tsan_%s.txt" % op)
         with open(cf, "w") as f:
             for c in cases:
@@ -84,7 +86,7 @@ RULE = ("2, 3, 4, 8 and 16 threads, each running its own random history (4..17 o
         "translation into its own regions, callback registration/unregistration, guest calls through registered entry points and raw slots, by-name and internal symbol lookups, owner queries) "
         "on its own three sandbox objects of verif32 (real regions, finder-based translation) and of rlbox_noop_sandbox; all threads start together and yield/spin pseudo-randomly between "
         "operations; every experiment is repeated 20 (quick) / 100 (thorough) times and must give the same per-thread outcomes every time, equal to the SOLO run of each thread's history in the "
-        "sequential model; plus create/lookup/destroy hammering by 2/4/16 threads. A third of the experiments (quick; all in thorough) are re-run under ThreadSanitizer; any race report is a violation.")
+        "sequential model; plus create/lookup/destroy hammering by 2/4/16 threads. A third of the experiments are re-run under ThreadSanitizer (10 / 25 repetitions each); any race report is a violation.")
 TRUSTED = ["model coq/Threads.v hand-written; its sequential action semantics is the World model of C14 (tied there); schedules are explored by the OS scheduler plus injected yields, not enumerated",
            "ThreadSanitizer (g++ 12) for the atomicity assumption", "the harness back end's own registry of live regions is mutex-protected harness code"]
 ASSUMPTIONS = ["PARTIAL: absence of data races is supported by ThreadSanitizer, not proved; the theorem assumes the action granularity of coq/Threads.v",
